@@ -55,7 +55,7 @@ func subsequence(sizes []int, got [][]byte) (string, int) {
 	return "", 0
 }
 
-const ruleC16 = "rapid-drawn loss chance from {0,1,5,50,95,99,100,101,1000,-1,-50} and uniform 0..100, stream of 0..2000 tagged chunks (sizes 4..1500) (UDP chunks, in a quarter of the cases TCP segments with drawn control bits) pushed through NewLossFilter in front of a recording sink NIC (in-package shim); 1 in 10 cases is a statistical case with 40000 chunks; oracle: chance 0 -> output == input, chance >= 100 -> nothing, always an in-order duplicate-free byte-identical subsequence whose chunks show the same String(), Tag(), Network() and addresses as on arrival, 0<chance<100 on 40000 chunks -> |dropped - N*p| <= 6*sqrt(N*p*(1-p)); non-trivial = stream of >= 100 chunks with mixed sizes; distinct by hash of chance + sizes"
+const ruleC16 = "rapid-drawn loss chance from {0,1,5,50,95,99,100,101,1000,-1,-50} and uniform 0..100, stream of 0..2000 tagged chunks (sizes 4..1500) (UDP chunks, in a quarter of the cases TCP segments with drawn control bits) pushed through NewLossFilter in front of a recording sink NIC (in-package shim); 1 in 10 cases is a statistical case with 40000 chunks, during which further loss filters may be constructed every 1, 2, 7, 100 or 1000 chunks; oracle: chance 0 -> output == input, chance >= 100 -> nothing, always an in-order duplicate-free byte-identical subsequence whose chunks show the same String(), Tag(), Network() and addresses as on arrival, 0<chance<100 on 40000 chunks -> |dropped - N*p| <= 6*sqrt(N*p*(1-p)); non-trivial = stream of >= 100 chunks with mixed sizes; distinct by hash of chance + sizes"
 
 func TestC16Loss(t *testing.T) {
 	r := ev.New("C16", "in-package", ruleC16)
@@ -71,9 +71,14 @@ func TestC16Loss(t *testing.T) {
 		}
 		stat := rapid.IntRange(0, 9).Draw(t, "stat") == 0
 		n := rapid.IntRange(0, 2000).Draw(t, "n")
+		others := 0
 		if stat {
 			n = 40000
 			c.Label("statistical")
+			others = rapid.SampledFrom([]int{0, 0, 1, 2, 7, 100, 1000}).Draw(t, "othersEvery")
+			if others > 0 && others <= 2 {
+				n = 8000 // every construction re-seeds the shared source, which is slow
+			}
 		}
 		sizes := make([]int, n)
 		base := rapid.IntRange(4, 1500).Draw(t, "size")
@@ -106,7 +111,17 @@ func TestC16Loss(t *testing.T) {
 		if err != nil {
 			t.Fatalf("NewLossFilter(%d): %v", chance, err)
 		}
+		// other loss filters may be constructed while this one carries traffic (every network
+		// under test builds its own): the stream of this filter stays what it is
+		if others > 0 {
+			c.Label("other-filters-constructed-mid-stream")
+		}
 		for i, sz := range sizes {
+			if others > 0 && i%others == 0 {
+				if _, err := vnet.NewLossFilter(sink, 50); err != nil {
+					t.Fatalf("NewLossFilter: %v", err)
+				}
+			}
 			ch := vnet.VerifNewChunkUDP(srcAddr, dstAddr, tagged(i+1, sz))
 			if tcp {
 				ch = vnet.VerifNewChunkTCP(tcpSrc, tcpDst, uint8(1+(i*7)%31), tagged(i+1, sz))
